@@ -40,11 +40,13 @@ async fn bc_subscriber(mut rx: broadcast::Receiver<u32>, sub: u64, fast: bool, m
     }
 }
 
-pub async fn broadcast_scenario(seed: u64, remote: bool, cut: bool) {
+/// `calm`: there is no subscriber that keeps up; after the seeded phase (bursts make every subscriber lag) the sender
+/// pauses and then sends a few more values with long gaps - every subscriber has room then and must get them.
+pub async fn broadcast_scenario(seed: u64, remote: bool, cut: bool, calm: bool) {
     let mut rng = Rng::new(seed ^ 0xBCA5);
     SENT.store(0, Ordering::SeqCst);
     FAST_SEEN.store(0, Ordering::SeqCst);
-    tr(json!({"ev": "reset", "seed": seed, "wl": "bcast", "remote": remote, "cut": cut}));
+    tr(json!({"ev": "reset", "seed": seed, "wl": "bcast", "remote": remote, "cut": cut, "calm": calm}));
     install_spawn_policy(seed, 1, 4);
     let tx = broadcast::Sender::<u32>::new();
     let mut handles: Vec<tokio::task::JoinHandle<()>> = Vec::new();
@@ -52,11 +54,13 @@ pub async fn broadcast_scenario(seed: u64, remote: bool, cut: bool) {
     let mut conn_keep = None;
     let mut next_sub = 1u64;
     // a subscriber that keeps up: it drains before the next value is sent (see below)
-    let fast_rx = tx.subscribe::<2>(rng.range(1, 2) as usize);
-    tr(json!({"ev": "bc_sub", "sub": next_sub, "fast": true, "remote": false, "after": 0}));
     let fast_id = next_sub;
-    handles.push(spawn_d(1, bc_subscriber(fast_rx, next_sub, true, Rng::new(seed * 7 + next_sub), u64::MAX)));
-    next_sub += 1;
+    if !calm {
+        let fast_rx = tx.subscribe::<2>(rng.range(1, 2) as usize);
+        tr(json!({"ev": "bc_sub", "sub": next_sub, "fast": true, "remote": false, "after": 0}));
+        handles.push(spawn_d(1, bc_subscriber(fast_rx, next_sub, true, Rng::new(seed * 7 + next_sub), u64::MAX)));
+        next_sub += 1;
+    }
     let nvals = rng.range(6, 14);
     let mut conn: Option<RemConn<broadcast::Receiver<u32>, ()>> = None;
     if remote {
@@ -68,10 +72,10 @@ pub async fn broadcast_scenario(seed: u64, remote: bool, cut: bool) {
     let mut fast_seen_target = 0u64;
     for v in 1..=nvals {
         // subscribers join at random moments
-        if rng.chance(1, 3) && next_sub <= 4 {
+        if (rng.chance(1, 3) || (calm && v == 1)) && next_sub <= 4 {
             let buf = rng.range(1, 3) as usize;
             let rx = tx.subscribe::<2>(buf);
-            let leave = if rng.chance(1, 4) { rng.range(1, 3) } else { u64::MAX };
+            let leave = if rng.chance(1, 4) && !calm { rng.range(1, 3) } else { u64::MAX };
             let is_remote = conn.is_some() && rng.chance(1, 2);
             let r = Rng::new(seed * 7 + next_sub);
             if is_remote {
@@ -92,7 +96,7 @@ pub async fn broadcast_scenario(seed: u64, remote: bool, cut: bool) {
         }
         // let the fast subscriber drain (it keeps up by definition)
         for _ in 0..400 {
-            if trace_count_fast(fast_id) >= fast_seen_target {
+            if calm || trace_count_fast(fast_id) >= fast_seen_target {
                 break;
             }
             tokio::task::yield_now().await;
@@ -104,7 +108,8 @@ pub async fn broadcast_scenario(seed: u64, remote: bool, cut: bool) {
         SENT.store(v, Ordering::SeqCst);
         fast_seen_target = v;
         tr(json!({"ev": "bc_send", "v": v, "n": n}));
-        yields(rng.below(20)).await;
+        // calm scenarios: bursts (no gap) so that everybody lags
+        yields(if calm && rng.chance(2, 3) { 0 } else { rng.below(20) }).await;
         if cut && v == nvals / 2 {
             if let Some(c) = &conn {
                 tr(json!({"ev": "fault", "kind": "cut"}));
@@ -119,7 +124,22 @@ pub async fn broadcast_scenario(seed: u64, remote: bool, cut: bool) {
             }
         }
     }
-    tr(json!({"ev": "bc_drop_sender", "last": nvals}));
+    let mut last = nvals;
+    if calm {
+        // everybody drains (and learns about its lag), then values arrive with long gaps: nobody can lag now
+        yields(400).await;
+        tr(json!({"ev": "bc_calm", "from": nvals + 1}));
+        for v in nvals + 1..=nvals + rng.range(2, 4) {
+            let n = match tx.send(v as u32) {
+                Ok(b) => b.into_sendings().len() as i64,
+                Err(_) => -1,
+            };
+            tr(json!({"ev": "bc_send", "v": v, "n": n}));
+            last = v;
+            yields(150).await;
+        }
+    }
+    tr(json!({"ev": "bc_drop_sender", "last": last}));
     drop(tx);
     if let Some(c) = conn {
         conn_keep = Some(c);
@@ -278,4 +298,80 @@ pub async fn watch_scenario(seed: u64, hops: u64, cut: bool) {
         }
     }
     settle().await;
+}
+
+// ------------------------------------------------------------------------------------------------ concurrent senders
+// Two clones of a broadcast sender used from two OS threads at the same time (send has no suspension point, so the
+// single-threaded scenarios never overlap two sends).  The value's Clone - which send calls while it fans the value
+// out - parks the first sender until the second one has tried to send as well.
+
+static GATE_ENTERED: std::sync::atomic::AtomicBool = std::sync::atomic::AtomicBool::new(false);
+static GATE_RELEASE: std::sync::atomic::AtomicBool = std::sync::atomic::AtomicBool::new(false);
+
+#[derive(Debug, serde::Serialize, serde::Deserialize)]
+pub struct Gated(pub u32);
+impl Clone for Gated {
+    fn clone(&self) -> Self {
+        if self.0 == 1000 && !GATE_RELEASE.load(Ordering::SeqCst) {
+            GATE_ENTERED.store(true, Ordering::SeqCst);
+            let t0 = std::time::Instant::now();
+            while !GATE_RELEASE.load(Ordering::SeqCst) && t0.elapsed().as_millis() < 300 {
+                std::thread::sleep(std::time::Duration::from_micros(200));
+            }
+        }
+        Gated(self.0)
+    }
+}
+
+pub async fn broadcast_threads(seed: u64) {
+    tr(json!({"ev": "reset", "seed": seed, "wl": "bcast_threads", "remote": false, "cut": false, "calm": false}));
+    GATE_ENTERED.store(false, Ordering::SeqCst);
+    GATE_RELEASE.store(false, Ordering::SeqCst);
+    let tx = broadcast::Sender::<Gated>::new();
+    let nsubs = 1 + seed % 2;
+    let mut rxs = Vec::new();
+    for _ in 0..nsubs {
+        rxs.push(tx.subscribe::<2>(8));
+    }
+    let tx2 = tx.clone();
+    let a = std::thread::spawn(move || {
+        let ok = tx.send(Gated(1000)).is_ok();
+        drop(tx);
+        ok
+    });
+    // wait until sender A is inside send (cloning the value for a subscriber)
+    let t0 = std::time::Instant::now();
+    while !GATE_ENTERED.load(Ordering::SeqCst) && t0.elapsed().as_millis() < 300 {
+        std::thread::sleep(std::time::Duration::from_micros(200));
+    }
+    let b = std::thread::spawn(move || {
+        let ok = tx2.send(Gated(2000)).is_ok();
+        drop(tx2);
+        ok
+    });
+    // B either completes while A is parked (no mutual exclusion) or blocks behind A; give it a moment, then release A
+    let t1 = std::time::Instant::now();
+    while !b.is_finished() && t1.elapsed().as_millis() < 40 {
+        std::thread::sleep(std::time::Duration::from_micros(200));
+    }
+    let b_overlapped = b.is_finished();
+    GATE_RELEASE.store(true, Ordering::SeqCst);
+    let a_ok = a.join().unwrap_or(false);
+    let b_ok = b.join().unwrap_or(false);
+    tr(json!({"ev": "bt_send", "who": "a", "ok": a_ok}));
+    tr(json!({"ev": "bt_send", "who": "b", "ok": b_ok, "overlapped": b_overlapped}));
+    for (i, mut rx) in rxs.into_iter().enumerate() {
+        let mut got = Vec::new();
+        let mut lagged = false;
+        loop {
+            match patient(rx.recv(), 200, 300).await {
+                Some(Ok(v)) => got.push(v.0),
+                Some(Err(broadcast::RecvError::Lagged)) => lagged = true,
+                _ => break,
+            }
+        }
+        got.sort();
+        tr(json!({"ev": "bt_sub", "sub": i + 1, "got": got, "lagged": lagged}));
+    }
+    tr(json!({"ev": "bt_end"}));
 }
